@@ -121,6 +121,18 @@ Proof.
     apply andb_true_iff in E2 as [E2 E3]. f_equal; [apply Hu, E2 | apply IH, E3].
 Qed.
 
+Lemma expr_eqb_refl : forall e, expr_eqb e e = true.
+Proof.
+  induction e using expr_ind'; simpl.
+  - apply Z.eqb_refl.
+  - apply Nat.eqb_refl.
+  - rewrite Nat.eqb_refl. simpl. induction H as [|u l Hu Hl IH]; [reflexivity|]. rewrite Hu. exact IH.
+  - rewrite IHe. destruct o; reflexivity.
+  - rewrite IHe1, IHe2. destruct o; reflexivity.
+  - assert (Hf : intr_eqb f f = true) by (destruct f; reflexivity). rewrite Hf. simpl.
+    induction H as [|u l Hu Hl IH]; [reflexivity|]. rewrite Hu. exact IH.
+Qed.
+
 Lemma exprs_eqb_eq : forall a b, list_beq expr_eqb a b = true -> a = b.
 Proof.
   induction a as [|x a IH]; intros [|y b] E; simpl in E; try discriminate; [reflexivity|].
